@@ -112,10 +112,13 @@ func verifSignedCall(w *verifWorld, ep int, alt int, svc *pool.VerifHost) error 
 		_, err := w.p.Update(ctx, mk("vipnode_update", signer(node, other), signed), presentNode, nonce, req)
 		return err
 	case 2: // vipnode_peer
-		req := pool.PeerRequest{Num: 1}
+		// the requested count is 1..3 and the pool may be configured with a maximum of 1 or 2: what the
+		// signature covers is the request as sent, whatever the pool later makes of the count
+		req := pool.PeerRequest{Num: 1 + verifapi.Choose("peernum", 3)}
 		signed := req
 		if alt == altParams {
-			signed.Num = 2
+			signed.Num = 1 + verifapi.Choose("signednum", 3)
+			verifapi.Assume(signed.Num != req.Num)
 		}
 		_, err := w.p.Peer(ctx, mk("vipnode_peer", signer(node, other), signed), presentNode, nonce, req)
 		return err
@@ -190,6 +193,9 @@ func VerifC04Endpoint() {
 		verifapi.Assume(false) // stale nonces are C05/C06
 	}
 	svc := &pool.VerifHost{Name: "conn", Addr: "192.0.2.9:1"}
+	if ep == 2 {
+		w.p.MaxRequestHosts = verifapi.Choose("maxrequesthosts", 3) // pool configuration: no maximum, 1 or 2
+	}
 	w.t0 = verifapi.Snapshot(w.state())
 	err := verifSignedCall(w, ep, alt, svc)
 	verifapi.Reach("c04.called")
@@ -220,6 +226,9 @@ func VerifC06Refused() {
 	kinds := []int{altIdentity, altGarbage, altEmpty, altNonce, altStale, altSpelling, altExpired}
 	alt := kinds[verifapi.Choose("refusal", len(kinds))]
 	svc := &pool.VerifHost{Name: "conn", Addr: "192.0.2.9:1"}
+	if ep == 2 {
+		w.p.MaxRequestHosts = verifapi.Choose("maxrequesthosts", 3)
+	}
 	w.t0 = verifapi.Snapshot(w.state())
 	// the forged request carries a nonce well ahead of the clock
 	legitNonce := pool.VerifFreshNonce()
